@@ -1,6 +1,7 @@
 package main
 
 import (
+	"crypto/sha1"
 	"fmt"
 	"math/big"
 	"sort"
@@ -73,9 +74,80 @@ func (t *Term) IsConst() bool { return t.Op == "const" }
 type TermTable struct {
 	m    map[string]*Term
 	next int
+	vars map[*Term][]int
+	hash map[*Term][16]byte
 }
 
-func NewTermTable() *TermTable { return &TermTable{m: map[string]*Term{}} }
+func NewTermTable() *TermTable {
+	return &TermTable{m: map[string]*Term{}, vars: map[*Term][]int{}, hash: map[*Term][16]byte{}}
+}
+
+// Hash is a structural hash of a term, independent of the table it lives in (query cache key).
+func (tt *TermTable) Hash(t *Term) [16]byte {
+	if h, ok := tt.hash[t]; ok {
+		return h
+	}
+	hs := sha1.New()
+	fmt.Fprintf(hs, "%s|%s|%d|%d|", t.Op, t.Name, t.Sort, t.U)
+	if t.Big != nil {
+		hs.Write([]byte(t.Big.String()))
+	}
+	for _, a := range t.Args {
+		ah := tt.Hash(a)
+		hs.Write(ah[:])
+	}
+	var out [16]byte
+	copy(out[:], hs.Sum(nil))
+	tt.hash[t] = out
+	return out
+}
+
+// Vars returns the sorted ids of the variables a term depends on (memoised).
+func (tt *TermTable) Vars(t *Term) []int {
+	if v, ok := tt.vars[t]; ok {
+		return v
+	}
+	var out []int
+	switch t.Op {
+	case "const":
+	case "var":
+		out = []int{t.id}
+	default:
+		for _, a := range t.Args {
+			out = mergeSorted(out, tt.Vars(a))
+		}
+	}
+	tt.vars[t] = out
+	return out
+}
+
+func mergeSorted(a, b []int) []int {
+	if len(a) == 0 {
+		return b
+	}
+	if len(b) == 0 {
+		return a
+	}
+	out := make([]int, 0, len(a)+len(b))
+	i, j := 0, 0
+	for i < len(a) && j < len(b) {
+		switch {
+		case a[i] < b[j]:
+			out = append(out, a[i])
+			i++
+		case a[i] > b[j]:
+			out = append(out, b[j])
+			j++
+		default:
+			out = append(out, a[i])
+			i++
+			j++
+		}
+	}
+	out = append(out, a[i:]...)
+	out = append(out, b[j:]...)
+	return out
+}
 
 func (tt *TermTable) intern(t *Term) *Term {
 	var sb strings.Builder
@@ -424,7 +496,7 @@ func smtConst(t *Term) string {
 }
 
 // Script renders declarations+definitions for the roots and returns names of roots.
-func Script(roots []*Term) (string, []string) {
+func Script(roots []*Term) (string, []string, bool) {
 	seen := map[int]*Term{}
 	var visit func(t *Term)
 	visit = func(t *Term) {
@@ -483,5 +555,12 @@ func Script(roots []*Term) (string, []string) {
 	for _, r := range roots {
 		names = append(names, name(r))
 	}
-	return sb.String(), names
+	hasInt := false
+	for _, t := range seen {
+		if t.Sort == SInt {
+			hasInt = true
+			break
+		}
+	}
+	return sb.String(), names, hasInt
 }
